@@ -125,6 +125,7 @@ pub fn readonly_base(version: u16) -> Result<(Vec<u8>, BTreeMap<String, Vec<u8>>
 
 fn entries_summary(it: impl Iterator<Item = cfb::Entry>) -> String {
     let v: Vec<String> = it
+        .take(ops::WALK_LIMIT)
         .map(|e| {
             let o = ops::entry_obs(&e);
             format!("{}:{}:{}:{}", o.path, if o.kind == Kind::Stream { "f" } else { "d" }, o.len, o.state_bits)
@@ -279,18 +280,28 @@ impl Env {
                 Ok(format!("pos={}", p))
             }
             WStep::Write(h, n) => {
-                let (pos, path) = self.pos_of(*h)?;
+                // write_all semantics, but every accepted count is applied to the model as it
+                // is reported (a single write() may legitimately be short)
+                let (pos0, path) = self.pos_of(*h)?;
                 let data = ops::pattern(ops::seed_of(&path, *n as u64, idx as u64), *n);
-                let hd = self.handles[*h].as_mut().unwrap();
-                let k = hd.s.write(&data).map_err(es)?;
-                if let Some(Some(m)) = self.content.get_mut(&path) {
-                    let end = pos as usize + k;
-                    if end > m.len() {
-                        m.resize(end, 0);
+                let mut done = 0usize;
+                while done < data.len() {
+                    let (pos, _) = self.pos_of(*h)?;
+                    let hd = self.handles[*h].as_mut().unwrap();
+                    let k = hd.s.write(&data[done..]).map_err(es)?;
+                    if k == 0 {
+                        return Err("write returned 0".into());
                     }
-                    m[pos as usize..end].copy_from_slice(&data[..k]);
+                    if let Some(Some(m)) = self.content.get_mut(&path) {
+                        let end = pos as usize + k;
+                        if end > m.len() {
+                            m.resize(end, 0);
+                        }
+                        m[pos as usize..end].copy_from_slice(&data[done..done + k]);
+                    }
+                    done += k;
                 }
-                Ok(format!("wrote {}@{}", k, pos))
+                Ok(format!("wrote {}@{}", done, pos0))
             }
             WStep::Flush(h) => {
                 let path = self.handle(*h)?.path.clone();
@@ -561,6 +572,14 @@ pub fn explore(ctx: &Ctx, base_case: &FaultCase, base: Option<&(Vec<u8>, BTreeMa
     // index of the first underlying call made after the first step
     let first_step_end: u64 = reference.log.iter().position(|(_, tag)| *tag > 1).unwrap_or(reference.log.len()) as u64;
     stats.positions = singles.len() as u64;
+    if std::env::var("CFBMC_DEBUG_E4").is_ok() {
+        let mut per_tag: BTreeMap<u32, (u64, u64)> = BTreeMap::new();
+        for (i, (_, tag)) in reference.log.iter().enumerate() {
+            let e = per_tag.entry(*tag).or_insert((i as u64, i as u64));
+            e.1 = i as u64;
+        }
+        eprintln!("workload {} v{}: calls per attempt tag (first..last): {:?}", base_case.workload, base_case.version, per_tag);
+    }
     ctx.sample(json!({"workload": base_case.workload, "version": base_case.version, "underlying_calls": reference.calls, "fault_positions": singles.len(), "example_plan": [[singles.get(singles.len() / 2), "Fail"]]}));
     let results: Vec<(u64, u64, u64)> = singles
         .par_iter()
@@ -806,9 +825,16 @@ pub fn run_hist_on_fault(h: &History, plan: BTreeMap<u64, Fault>, chunk: Option<
             }
         }
         comp.flush().map_err(|e| format!("flush: {}", e))?;
-        let was = pause(&ctl);
-        out.dump = ops::dump_real(&mut comp).ok();
-        resume(&ctl, was);
+        // reopen the result through the same backend (same chunking / interruptions still in
+        // force) and read everything back: the loaders used by open are part of the property
+        let inner = comp.into_inner();
+        let mut comp2 = cfb::OpenOptions::new().open_with(inner).map_err(|e| format!("reopen through the variant backend: {}", e))?;
+        out.dump = Some(ops::dump_real(&mut comp2).map_err(|e| format!("dump after reopen through the variant backend: {}", e))?);
+        let mut strict = cfb::OpenOptions::new().strict().open_with(comp2.into_inner()).map_err(|e| format!("strict reopen through the variant backend: {}", e))?;
+        let d2 = ops::dump_real(&mut strict).map_err(|e| format!("dump after strict reopen: {}", e))?;
+        if Some(&d2) != out.dump.as_ref() {
+            return Err("strict and permissive reopen through the variant backend differ".into());
+        }
         Ok(())
     });
     match r {
@@ -913,6 +939,8 @@ pub fn c18_explore(ctx: &Ctx, hists: &[History], chunks: &[usize], bufs: &[usize
             } else if r.image != reference.image {
                 let d = r.image.iter().zip(reference.image.iter()).position(|(a, b)| a != b);
                 rep("differs", format!("variant {}: final image differs from the plain run (len {} vs {}, first diff {:?})", name, r.image.len(), reference.image.len(), d), variant);
+            } else if r.dump != reference.dump {
+                rep("differs", format!("variant {}: content read back through the variant backend differs from the plain run", name), variant);
             }
         };
         // (a) rerun
